@@ -61,6 +61,10 @@ pub struct C17Case {
     pub rev: bool,
     pub calls: Vec<Call>,
     pub term: Terminal,
+    /// when present the subject is this giant vector (> 2^31 bits), `a` is ignored (empty) and the
+    /// terminal must be count or last (the others walk every item)
+    #[serde(default)]
+    pub giant: Option<super::giant::GiantSpec>,
 }
 
 pub struct C17;
@@ -232,7 +236,7 @@ impl Property for C17 {
         "C17"
     }
     fn rule(&self) -> String {
-        "Cases (stateful): a vector (any zoo type/provenance, length <=200 quick / 600 thorough), an iterator source (iter() | (&v).into_iter(), optionally .rev()), a sequence of 0..25 calls over next, next_back, nth(k), nth_back(k), size_hint with k in {0..5, rem-1, rem, rem+1, usize::MAX, usize::MAX-1, usize::MAX-rem, a fraction of rem, arbitrary} (rem = items remaining at call time), then a terminal count | last | collect | drain-and-keep-calling | fold | rfold | adaptors (position over take(5), then skip(2).step_by(3)). Oracle: std::slice::Iter over the model bits driven by the same calls, every return value compared; the vector passes the battery afterwards (iteration does not modify it). Long vectors (enumerated, not random): 65..8193 bits on four types, every length 321..2600 (thorough 8300), the 70 400-bit fixed type at 7 lengths and a geometric ladder of lengths around every power of two from 2^14 to 2^21 (thorough 2^24) bits, with jumps to interior positions, 2^16+1 and 2^12+5. Enumerated: all call sequences of length <=4 over a 7-call alphabet for every n<=5, all four sources, on 3 types. Non-trivial: items were consumed from both ends and at least one nth/nth_back with k>0 ran on a partially consumed iterator. Distinct by hash of the case.".into()
+        "Cases (stateful): a vector (any zoo type/provenance, length <=200 quick / 600 thorough), an iterator source (iter() | (&v).into_iter(), optionally .rev()), a sequence of 0..25 calls over next, next_back, nth(k), nth_back(k), size_hint with k in {0..5, rem-1, rem, rem+1, usize::MAX, usize::MAX-1, usize::MAX-rem, a fraction of rem, arbitrary} (rem = items remaining at call time), then a terminal count | last | collect | drain-and-keep-calling | fold | rfold | adaptors (position over take(5), then skip(2).step_by(3)). Oracle: std::slice::Iter over the model bits driven by the same calls, every return value compared; the vector passes the battery afterwards (iteration does not modify it). Giant vectors (2^31+69 and 2^32+77 bits, Bvd and heap Bv): nth / nth_back with 2^31+5, 2^32, 2^32+1 (and 2^30+k from the back) on a partially consumed iterator, iter() and (&v).into_iter().rev(), terminals count and last. Long vectors (enumerated, not random): 65..8193 bits on four types, every length 321..2600 (thorough 8300), the 70 400-bit fixed type at 7 lengths and a geometric ladder of lengths around every power of two from 2^14 to 2^21 (thorough 2^24) bits, with jumps to interior positions, 2^16+1 and 2^12+5. Enumerated: all call sequences of length <=4 over a 7-call alphabet for every n<=5, all four sources, on 3 types. Non-trivial: items were consumed from both ends and at least one nth/nth_back with k>0 ran on a partially consumed iterator. Distinct by hash of the case.".into()
     }
     fn random_cases(&self, tier: Tier) -> u64 {
         tier.pick(300000, 9600000)
@@ -243,7 +247,7 @@ impl Property for C17 {
             if a.len() > nmax {
                 a.bits.0.truncate(frac(f, nmax + 1));
             }
-            C17Case { a, into_iter, rev, calls, term: TERMS[t] }
+            C17Case { a, into_iter, rev, calls, term: TERMS[t], giant: None }
         }).boxed()
     }
     fn exhaustive_subspaces(&self, _tier: Tier) -> Vec<String> {
@@ -251,9 +255,9 @@ impl Property for C17 {
     }
     fn enumerate(&self, tier: Tier, sh: &mut Shard, f: &mut dyn FnMut(C17Case) -> bool) {
         // long vectors: jumps to arbitrary interior positions followed by single steps
-        for t in [TID_D, TID_A, 18u8, 10u8] {
+        for t in [TID_D, TID_A, 18u8, 10u8, 27u8, 28u8, 13u8, 25u8] {
             let c = fixed_cap(t).unwrap_or(usize::MAX);
-            for n in [65usize, 127, 129, 1025, 2560, 4097, 4300, 8193] {
+            for n in [65usize, 127, 129, 257, 385, 1025, 2560, 4097, 4300, 8193] {
                 if !sh.mine() {
                     continue;
                 }
@@ -269,7 +273,7 @@ impl Property for C17 {
                     for f2 in [1000u16, 30000, 65000] {
                         for src in 0..4usize {
                             let calls = vec![Call::Nth(KSel::Frac(f1)), Call::Next, Call::Next, Call::NthBack(KSel::Frac(f2)), Call::NextBack, Call::Next, Call::Nth(KSel::Small(63)), Call::Next, Call::Nth(KSel::Small(64)), Call::Next, Call::SizeHint];
-                            let case = C17Case { a: Operand::canon(t, a.clone()), into_iter: src & 1 == 1, rev: src & 2 == 2, calls, term: TERMS[(f1 as usize + src) % 7] };
+                            let case = C17Case { a: Operand::canon(t, a.clone()), into_iter: src & 1 == 1, rev: src & 2 == 2, calls, term: TERMS[(f1 as usize + src) % 7], giant: None };
                             if !f(case) {
                                 return;
                             }
@@ -296,8 +300,48 @@ impl Property for C17 {
                 for (f1, f2) in [(1000u16, 65000u16), (32768, 30000), (65000, 1000)] {
                     let src = (j + f1 as usize + n) % 4;
                     let calls = vec![Call::Nth(KSel::Frac(f1)), Call::Next, Call::NthBack(KSel::Frac(f2)), Call::NextBack, Call::Next, Call::Nth(KSel::Small(64)), Call::Next, Call::SizeHint, Call::Nth(KSel::Pow2Plus(16, 1)), Call::Next, Call::NthBack(KSel::Pow2Plus(12, 5)), Call::NextBack];
-                    if !f(C17Case { a: Operand::canon(t, a.clone()), into_iter: src & 1 == 1, rev: src & 2 == 2, calls, term: TERMS[(f2 as usize + src) % 7] }) {
+                    if !f(C17Case { a: Operand::canon(t, a.clone()), into_iter: src & 1 == 1, rev: src & 2 == 2, calls, term: TERMS[(f2 as usize + src) % 7], giant: None }) {
                         return;
+                    }
+                }
+            }
+        }
+        // every terminal on an (almost) untouched iterator over a full-capacity vector of every
+        // fixed type: internal iteration (count, last, fold, rfold, adaptors) over all words
+        for t in FIXED_TIDS {
+            if !sh.mine() {
+                continue;
+            }
+            let c = fixed_cap(t).unwrap();
+            for n in [c, c.saturating_sub(1), c.saturating_sub(WORD_BITS[t as usize] / 2)] {
+                for a in [dense_value(n), Bits::ones(n)] {
+                    for calls in [vec![], vec![Call::Next], vec![Call::NextBack, Call::SizeHint]] {
+                        for src in 0..4usize {
+                            for term in TERMS {
+                                if !f(C17Case { a: Operand::canon(t, a.clone()), into_iter: src & 1 == 1, rev: src & 2 == 2, calls: calls.clone(), term, giant: None }) {
+                                    return;
+                                }
+                            }
+                        }
+                    }
+                }
+            }
+        }
+        // beyond 2^31 and 2^32 bits: arguments and positions that no longer fit 31 / 32 bits
+        for len in super::giant::GIANT_LENS {
+            for heap_bv in [false, true] {
+                if !sh.mine() {
+                    continue;
+                }
+                for (j, ones) in super::giant::giant_lists(len).into_iter().take(2).enumerate() {
+                    for (e, s) in [(31u8, 5u8), (32, 0), (32, 1)] {
+                        for src in [0usize, 3] {
+                            let calls = vec![Call::Next, Call::NextBack, Call::Nth(KSel::Pow2Plus(e, s)), Call::Next, Call::SizeHint, Call::NthBack(KSel::Pow2Plus(e.min(30), s)), Call::NextBack, Call::Nth(KSel::RemMinus1), Call::SizeHint];
+                            let term = if (j + src) % 2 == 0 { Terminal::Last } else { Terminal::Count };
+                            if !f(C17Case { a: Operand::canon(TID_D, Bits::new()), into_iter: src & 1 == 1, rev: src & 2 == 2, calls, term, giant: Some(super::giant::GiantSpec { len, ones: ones.clone(), heap_bv }) }) {
+                                return;
+                            }
+                        }
                     }
                 }
             }
@@ -313,7 +357,7 @@ impl Property for C17 {
                     let calls = vec![Call::Next, Call::NextBack, if back { Call::NthBack(k) } else { Call::Nth(k) }, Call::Next, Call::SizeHint];
                     for (t, n) in [(1u8, 16usize), (TID_D, 70), (TID_A, 200)] {
                         for rev in [false, true] {
-                            if !f(C17Case { a: Operand::canon(t, dense_value(n)), into_iter: back, rev, calls: calls.clone(), term: Terminal::Collect }) {
+                            if !f(C17Case { a: Operand::canon(t, dense_value(n)), into_iter: back, rev, calls: calls.clone(), term: Terminal::Collect, giant: None }) {
                                 return;
                             }
                         }
@@ -326,7 +370,7 @@ impl Property for C17 {
                 continue;
             }
             let calls = vec![Call::Nth(KSel::Frac(20000)), Call::Next, Call::NthBack(KSel::Frac(20000)), Call::NextBack, Call::Nth(KSel::Small(63)), Call::Next];
-            if !f(C17Case { a: Operand::canon(t, dense_value(n)), into_iter: n % 2 == 0, rev: n % 4 < 2, calls, term: TERMS[n % 7] }) {
+            if !f(C17Case { a: Operand::canon(t, dense_value(n)), into_iter: n % 2 == 0, rev: n % 4 < 2, calls, term: TERMS[n % 7], giant: None }) {
                 return;
             }
         }
@@ -343,7 +387,7 @@ impl Property for C17 {
                         let a = realize_val(&ValPat::Alt(true), n, 8);
                         for src in 0..4 {
                             for term in TERMS {
-                                let case = C17Case { a: Operand::canon(t, a.clone()), into_iter: src & 1 == 1, rev: src & 2 == 2, calls: calls.clone(), term };
+                                let case = C17Case { a: Operand::canon(t, a.clone()), into_iter: src & 1 == 1, rev: src & 2 == 2, calls: calls.clone(), term, giant: None };
                                 if !f(case) {
                                     return;
                                 }
@@ -361,6 +405,37 @@ impl Property for C17 {
 
 impl C17 {
     fn check_inner(&self, case: &C17Case, st: &mut Stats) -> CheckResult {
+        if let Some(g) = &case.giant {
+            crate::ensure!(g.valid() && matches!(case.term, Terminal::Count | Terminal::Last), "bad-case", "giant iterator case outside its domain");
+            if !super::giant::giant_available(g.len) {
+                st.class("giant vector skipped: memory not available");
+                st.note(case, false);
+                return Ok(());
+            }
+            fn go<T: Subject>(g: &super::giant::GiantSpec, case: &C17Case) -> Result<(), String>
+            where
+                for<'a> &'a T: IntoIterator<Item = Bit, IntoIter = bva::BitIterator<'a, T>>,
+            {
+                let v: T = g.build();
+                // the oracle: a range mapped through the sparse description (nth, nth_back, count
+                // and last of a mapped range cost O(1))
+                let or = (0..g.len).map(|i| bit(g.bit(i)));
+                match (case.into_iter, case.rev) {
+                    (false, false) => drive(v.iter(), or, &case.calls, case.term),
+                    (false, true) => drive(v.iter().rev(), or.rev(), &case.calls, case.term),
+                    (true, false) => drive((&v).into_iter(), or, &case.calls, case.term),
+                    (true, true) => drive((&v).into_iter().rev(), or.rev(), &case.calls, case.term),
+                }
+            }
+            match catch(|| if g.heap_bv { go::<Bv>(g, case) } else { go::<Bvd>(g, case) }) {
+                Err(p) => fail!("iter:giant/panic", "iterating a {}-bit vector with ones at {:?}, calls {:?} panicked: {}", g.len, g.ones, case.calls, p),
+                Ok(Err(m)) => fail!("iter:giant/diverged", "a {}-bit vector with ones at {:?}, calls {:?}: {}", g.len, g.ones, case.calls, m),
+                Ok(Ok(())) => {}
+            }
+            st.class("giant vector (> 2^31 bits)");
+            st.note(case, true);
+            return Ok(());
+        }
         let a = &case.a;
         let what = format!("iter:{}:{}{}", kind_of(a.ty), if case.into_iter { "into_iter" } else { "iter" }, if case.rev { ".rev" } else { "" });
         let za = build_checked(a, "subject")?;
